@@ -104,6 +104,10 @@ impl AsyncFileSystem for AsyncOverlayFS {
                 }
             }
         }
+        if path.is_empty() {
+            // the marker directory lives in the upper layer's root, but is not an entry
+            entries.remove(".whiteout");
+        }
         // remove whiteout entries that have been removed
         let whiteout_path = self.write_layer().join(format!(".whiteout{}", path))?;
         if whiteout_path.exists().await? {
